@@ -362,7 +362,7 @@ def _rows_have_names(c):
 
 
 def _randint_events(events):
-    return [e for e in events if e.get('prim') == 'random.randint']
+    return [e for e in events if e.get('uniform_int')]
 
 
 _mid_inv = dict(_inner_inv(False))
@@ -401,8 +401,8 @@ fn('BatchExplainer.explain_many_original', F + 'batch.py', src_cls='BatchSage',
        }, body={
            # C04/D4: the background row index is drawn from the WHOLE data set: random.randint(0, len(x_data) - 1)
            'background_from_whole_data': lambda l: land(len(_randint_events(l.body_events)) == 1,
-                                                        _randint_events(l.body_events)[0]['arg'][0] == 0,
-                                                        _randint_events(l.body_events)[0]['arg'][1] == l.a.x_data.n - 1),
+                                                        _randint_events(l.body_events)[0]['lo'] == 0,
+                                                        _randint_events(l.body_events)[0]['hi'] == l.a.x_data.n - 1),
        }),
    ])
 
